@@ -96,6 +96,9 @@ NUMBER_FIELDS = {
     b'$$###.##': (4, 2, False), b'**##.#': (4, 1, False), b'**$##.#': (4, 1, False),
     b'#,###.##': (5, 2, True), b'##.##^^^^': (2, 2, False), b'+#.#^^^^': (1, 1, False), b'#^^^^-': (1, 0, False),
     b'#' * 12 + b'.' + b'#' * 12: (12, 12, False),
+    # no digit position before the point, with a sign: room for a leading zero depends on the trailing sign
+    b'.##-': (0, 2, False), b'.##+': (0, 2, False), b'+.##': (0, 2, False), b'.###+': (0, 3, False), b'.##^^^^-': (0, 2, False),
+    b'#.##-': (1, 2, False),
 }
 
 
@@ -210,12 +213,61 @@ def t_cycling(E, fmt, nvals, want):
     E.prove(r.value is True, 'the line is ended')
 
 
+# ---------------------------------------------------------------------------
+# bounded stand-in (never counted as proved): the digit strings themselves
+
+def t_digits_bounded(E, kind):
+    """Float.to_str_fixed / to_str_scientific against exact rational arithmetic: the shown value is within one
+    unit of the last digit shown (this decides gross errors - a wrong exponent, a lost carry - not the
+    rounding of the last digit, which the property allows only up to the accuracy of decimal conversion)."""
+    from fractions import Fraction
+    import random
+    cls = numbers.Single if kind == 'single' else numbers.Double
+    vals = values_env()
+    # a value with few significant digits (so that rounding carries are frequent), or an arbitrary mantissa
+    nd = E.int('ndigits', 1, 9)
+    digs = int(''.join(str(E.int('d%d' % i, 0, 9) if i else E.int('d0', 1, 9)) for i in range(nd)))
+    near = E.int('just below a power of ten', 0, 1)
+    if near:
+        digs = 10 ** nd - E.int('below', 1, 9)
+    e10 = E.int('exp10', -12, 12)
+    txt = ('%dE%d' % (digs, e10)).replace('E', 'E' if kind == 'single' else 'D')
+    x = vals.from_repr(txt.encode(), False).to_float(kind == 'double') if hasattr(numbers.Integer, 'to_float') else vals.from_repr(txt.encode(), False)
+    if not isinstance(x, cls):
+        x = cls(None, vals).from_value(float(Fraction(digs) * Fraction(10) ** e10))
+    if x.is_zero():
+        return
+    b = bytes(x.to_bytes())
+    man = int.from_bytes(b[:-1], 'little') | (1 << (8 * (cls.size - 1) - 1))
+    exact = Fraction(man, 1 << (8 * (cls.size - 1))) * Fraction(2) ** (b[-1] - 128)
+    which = E.int('fixed(0)/scientific(1)', 0, 1)
+    if which == 0:
+        dec = E.int('decimals', 0, 6)
+        s = x.clone().iabs().to_str_fixed(dec, True, False)
+        shown, unit = Fraction(s.decode() + '0'), Fraction(10) ** -dec
+    else:
+        db, da = E.int('digits before', 1, 4), E.int('digits after', 0, 6)
+        s = x.clone().iabs().to_str_scientific(db, da, True)
+        m, ex = s.decode().replace('D', 'E').split('E')
+        shown, unit = Fraction(m + '0') * Fraction(10) ** int(ex), Fraction(10) ** (int(ex) - da)
+    # digits beyond the precision of the type are zeros: the unit is then the last significant digit of the type
+    lg = 0
+    while Fraction(10) ** (lg + 1) <= exact:
+        lg += 1
+    while Fraction(10) ** lg > exact:
+        lg -= 1
+    unit = max(unit, Fraction(10) ** (lg - cls.digits + 1))
+    E.prove(abs(shown - exact) < unit, 'the digits shown are within one unit of the last digit shown (or held by the type) of the stored value')
+
+
 TASKS = [
     Task('StringField', t_string_field,
          cases=[{'spec': s, 'L': L} for s in (b'!', b'&', b'\\\\', b'\\ \\', b'\\    \\') for L in (0, 1, 2, 5, 9)]),
     Task('NumberField.__init__', t_number_parse, cases=[{'spec': s} for s in sorted(NUMBER_FIELDS)]),
     Task('NumberField.format', t_number_format, covers=('fits', 'overflow'),
-         cases=[{'spec': s, 'n': n, 'dot_first': d} for s in sorted(NUMBER_FIELDS) for n, d in ((1, False), (3, True), (4, False), (7, False), (12, False))]),
+         cases=[{'spec': s, 'n': n, 'dot_first': d} for s in sorted(NUMBER_FIELDS) for n, d in ((1, False), (2, True), (3, True), (4, True), (4, False), (7, False), (7, True), (12, False))]),
+    Task('to_str_fixed / to_str_scientific digits (bounded)', t_digits_bounded, cases=[{'kind': k} for k in ('single', 'double')], bounded=True,
+         samples=(2000, 40000), scope='2000 (quick) / 40000 (thorough) sampled values (1..9 significant digits, or 1..9 below a power of ten; exponents -12..12) and field shapes per type'),
     Task('Formatter._print_using (cycling)', t_cycling, cases=[
         {'fmt': b'&', 'nvals': 1, 'want': [(0, '&')]},
         {'fmt': b'a&b', 'nvals': 2, 'want': [b'a', (0, '&'), b'b', b'a', (1, '&'), b'b']},
